@@ -238,7 +238,7 @@ WORDS = ["a", "b1", "_x", "int", "while", "u", "u8", "L", "U", "u8x", "Lx", "siz
          "U8", "L8", "u88", "u16", "UL", "Lu8", "uU", "u8u8", "l", "u8_", "LL", "R", "u8R"]
 LITS = ['"s"', '"a\\"b"', "'c'", "'\\''", 'L"w"', 'u8"x"', "u'y'", 'U"z"', '""', '"/* not a comment */"', '"// no"', "'\\\\'",
         # every simple escape sequence of 6.4.4.4, octal and hexadecimal escapes of every length, in both literal kinds
-        '"\\a\\b\\f\\n\\r\\t\\v"', '"what\\?"', "'\\?'", "L'\\?'", 'u8"\\?\\\"\\\'"', "'\\\"'", '"\\\'"', "'\\a'", "'\\v'", '"\\0\\18\\012\\1234"', "'\\377'", '"\\x1\\x1fg\\x00000041"', "'\\x7f'",
+        '"\\a\\b\\f\\n\\r\\t\\v"', '"what\\?"', "'\\?'", "L'\\?'", 'u8"\\?\\\"\\\'"', "'\\\"'", '"\\\'"', "'\\a'", "'\\v'", '"\\0\\18\\012\\1234"', "'\\377'", '"\\x1\\x1fg\\x00000041"', "'\\x7f'", '"\\x0000000041"', "'\\x000000041'", 'L"\\x00000000000000041g"',
         '"??/"', '"\\\\?"']
 OTHERS = ["$", "@", "`"]
 SEPS = ["", "", " ", "  ", "\t", "/**/", "/* c */", " /*a*/ ", "\n", " \n ", "//x\n", "/*\n*/"]
